@@ -37,12 +37,13 @@ def run(ctx):
   rule_ctor(ctx)
   rule_holdout(ctx)
   rule_search(ctx)
+  rule_findbias(ctx)
   # a local read on a path that has not bound it raises UnboundLocalError instead of producing the result (analysis shared with C18)
   from . import c18 as _c18
   n_def = _c18.rule_defined(ctx, "R-C13-DEFINED", "C13")
   n_att = _c18.rule_attrs(ctx, "R-C13-ATTRS", "C13")
   ctx.expect("R-C13-DEFINED", 8, "functions of random_test_suite")
-  ctx.expect("R-C13-SEARCH", 3, "lattice, multiplier, offset of FindBiasImpl")
+  ctx.expect("R-C13-SEARCH", 4, "lattice, multiplier, offset of FindBiasImpl + FindBias wiring")
   ctx.expect("R-C13-HOLDOUT", 1, "FindBiasImpl")
   ctx.expect("R-C13-CTOR", 6, "five constructor parameters + initial state")
   ctx.expect("R-C13-GATE", 1, "500-cycle gate")
@@ -740,6 +741,29 @@ def rule_search(ctx):
     probs.append("the multiplier found never reaches the measurement")
   ctx.record(R, f.where, "multiplier from the shortest usable row", not probs, "; ".join(sorted(set(probs))) or "first reduced row with c0 = row[0] mod n != 0 and gcd(c0, n)^2 < n ends the search; default 1")
   ctx.record(R, f.where, "offset and measurement", not probs3, "; ".join(sorted(set(probs3))) or "d = -PseudoAverage([x c mod n], n) mod n on the training blocks; Bias(held-out, n, [(c, d)])")
+
+
+def rule_findbias(ctx):
+  """FindBias cuts the bit string into blocks of block_size bits and searches modulo 2^block_size (the blocks are the integers 0 .. 2^block_size - 1);
+  the default block size is the documented 256 bits (the statement's 'up-to-256-bit multiply-with-carry generators' need blocks at least that wide)."""
+  R = "R-C13-SEARCH"
+  repo = ctx.repo
+  LS = "randomness_tests.lattice_suite"
+  f = repo.func(LS, "FindBias")
+  w = sym.Walker(repo, f)
+  w.run()
+  bits, length, bs = (P("param", x) for x in f.params()[:3])
+  probs = []
+  rets = [t_[1] for t_ in w.terminals if t_[0] == "return"]
+  blocks = sym.mk("call", P("lit", "randomness_tests.util:SplitSequence"), bits, length, bs)
+  want = sym.mk("call", P("lit", LS + ":FindBiasImpl"), blocks, sym.mk("pow", Poly.const(2), bs))
+  if not rets or not all(isinstance(v, Poly) and v == want for v in rets):
+    probs.append("the result is %r, not FindBiasImpl(SplitSequence(bits, length, block_size), 2 ** block_size)" % (rets[:1],))
+  d = f.default_of(f.params()[2])
+  dv = fold.try_fold(d) if d is not None else None
+  if dv != 256:
+    probs.append("the default block size is %r, the documented one is 256" % (dv,))
+  ctx.record(R, f.where, "blocks of block_size bits searched modulo 2^block_size (default 256)", not probs, "; ".join(probs) or "FindBiasImpl(SplitSequence(bits, length, b), 2^b), b = 256 by default")
 
 
 def _rel13(fc):
